@@ -15,7 +15,7 @@ from props import cons as C
 from props import textcmp as T
 
 TEXTS = ['a ', 'padded   ', ' lead', 'tab\t', 'a', 'bb', "q'uote", 'double"q', 'back\\slash', 'é', '雪だるま', 'new\nline', 'x y', 'ccc', '12', 'A1', 'percent%',
-         "it's", "''", 'semi;colon', 'tab\t', 'z' * 30]
+         "it's", "''", 'semi;colon', 'tab\t', 'z' * 30, 'line\u2028sep', 'para\u2029sep', 'next\x85line', 'cr\rhere']
 F_TYPES = 'c08-declared-type-names'
 F_DATES = 'c08-date-formats'
 F_COLNAME = 'c08-quoted-column-name'
@@ -106,7 +106,8 @@ def perturbations(name, kind, cells, cons, rng):
         out.append(('no_duplicates', vals[0]))
     if 'max_nulls' in cons:
         out.append(('max_nulls', None) if cons['max_nulls'] == 0 else ('max_nulls', None))
-    if 'rex' in cons and cons['rex']:
+    if 'rex' in cons and cons['rex'] is not None and kind in ('text', 'varchar'):
+        # (an empty expression list - discovered from a column with no strings - is satisfied by nulls only)
         out.append(('rex', '@@ no expression matches this #'))
     if cons.get('sign') in ('positive', 'non-negative') and kind in ('integer', 'real'):
         out.append(('sign', -3))
